@@ -139,6 +139,9 @@ void AbstractParameterAliasable::aliasParameters(map<string, string>& unparsedPa
       plpars.addParameter(pl[i].clone());
   }
 
+  // The links made, in the order they were made (alias, source).
+  vector<pair<string, string>> links;
+
   size_t unp_s = unparsedParams.size();
   while (unp_s != 0)
   {
@@ -163,6 +166,7 @@ void AbstractParameterAliasable::aliasParameters(map<string, string>& unparsedPa
       plpars.addParameter(p2.release());
       plpars.parameter(it->first);
       aliasParameters(it->second, it->first);
+      links.push_back(make_pair(it->first, it->second));
       if (verbose)
         ApplicationTools::displayResult("Parameter alias found", it->first + " -> " + it->second + " = " + TextTools::toString(pp->getValue()));
       it = unparsedParams.erase(it);
@@ -174,7 +178,15 @@ void AbstractParameterAliasable::aliasParameters(map<string, string>& unparsedPa
       unp_s = unparsedParams.size();
   }
 
-  matchParametersValues(plpars);
+  // Every new alias takes the value its source holds now, in the order the links were made.
+  // (The values cloned into plpars are those of the beginning: they are stale as soon as a source
+  // follows, by an older link, a parameter that was aliased above and changes when it is written.)
+  for (const auto& link : links)
+  {
+    ParameterList value;
+    value.addParameter(Parameter(link.first, pl.parameter(link.second).getValue()));
+    matchParametersValues(value);
+  }
 }
 
 
